@@ -313,7 +313,8 @@ def kind_strategy(kind, cls_key=None, simple_json=False):
     if kind == "FLAGS":
         return st.dictionaries(st.sampled_from(FLAG_FIELDS), st.booleans(), max_size=4)
     if kind in ("MF", "UD", "LD"):
-        return jsondata_desc(simple=simple_json)
+        # smallest size limit of the three classes (LayoutData: 1024 bytes of JSON text), any formatting
+        return jsondata_desc(simple=simple_json).filter(lambda d: len(json.dumps(d["v"], indent=1)) < 1000)
     if kind == "IP":
         return st.one_of(_ipv4, _ipv6)
     if kind == "LOC":
@@ -349,15 +350,11 @@ def value_desc(cls_key, prop, simple_json=False):
 @st.composite
 def _props(draw, cls_key, max_props, boost, simple_json):
     names = [p for p in value_props(cls_key) if p != "image_type"]      # image_ref stands for the pair
-    mode = draw(st.integers(0, 9))
-    if mode <= 1:
-        chosen = []
-    elif mode <= 3:
-        chosen = [draw(st.sampled_from(names))]
-    elif mode <= 5:
-        chosen = draw(st.lists(st.sampled_from(names), unique=True, min_size=2, max_size=2))
-    else:
-        chosen = draw(st.lists(st.sampled_from(names), unique=True, max_size=max_props))
+    # how many properties: none / single / pair boosted, then sparse, dense and (nearly) all
+    n = len(names)
+    k = draw(st.sampled_from([1, 0, 2, 1, 2, 4, 0, 8, n // 2, n]))
+    k = min(k, max_props, n)
+    chosen = draw(st.lists(st.sampled_from(names), unique=True, min_size=k, max_size=k)) if k else []
     for b in boost:
         if b not in chosen and draw(st.booleans()):
             chosen.append(b)
@@ -675,8 +672,9 @@ def canon_sliver(sliver, with_ids=True):
     return d
 
 
-def diff_canon(a, b, path=""):
-    """list of (path, what) differences between two canon_sliver trees"""
+def diff_canon(a, b, path=()):
+    """list of (path, what, a-value, b-value) differences between two canon_sliver trees; path is a tuple of
+    (container, child name) steps from the root"""
     out = []
     if a.get("node_id") != b.get("node_id"):
         out.append((path, "node_id", a.get("node_id"), b.get("node_id")))
@@ -693,5 +691,18 @@ def diff_canon(a, b, path=""):
         for n in sorted(set(bn) - set(an)):
             out.append((path, f"{k}:extra", None, n))
         for n in sorted(set(an) & set(bn)):
-            out.extend(diff_canon(an[n], bn[n], f"{path}/{k}[{n}]"))
+            out.extend(diff_canon(an[n], bn[n], path + ((k, n),)))
     return out
+
+
+CONTAINER_CLS = {"components": "component", "services": "service", "network_services": "service",
+                 "interfaces": "interface"}
+
+
+def path_cls(path, root_cls):
+    """class key of the element a diff path points at"""
+    return CONTAINER_CLS[path[-1][0]] if path else root_cls
+
+
+def path_str(path):
+    return "/" + "/".join(f"{k}[{n}]" for k, n in path)
